@@ -553,7 +553,47 @@ theorem flattenPairs_length (ps : List (ZlEntry × ZlEntry)) : (flattenPairs ps)
   | nil => rfl
   | cons p ps ih => obtain ⟨a, b⟩ := p; simp [flattenPairs] at ih ⊢; omega
 
-theorem zlLength_ser (es : List ZlEntry) (hl : es.length < 65536) :
+/-- the first byte of a serialised entry (its prevlen field) is never the 0xFF end marker -/
+theorem serEntry_head (prev : Nat) (e : ZlEntry) :
+    ∃ b t, serEntry prev e = b :: t ∧ b.toNat ≠ 255 := by
+  unfold serEntry serPrevLen
+  split
+  · exact ⟨0xFE, leBytes 4 prev ++ serEntryBody e, by simp, by decide⟩
+  · rename_i h
+    refine ⟨UInt8.ofNat prev, serEntryBody e, by simp, ?_⟩
+    have : ¬ prev ≥ 254 := fun hh => h (Or.inr hh)
+    rw [u8_ofNat_toNat]; omega
+
+theorem serEntries_length_ge (es : List ZlEntry) (prev : Nat) : es.length ≤ (serEntries prev es).length := by
+  induction es generalizing prev with
+  | nil => simp
+  | cons e es ih =>
+    obtain ⟨b, t, hbt, _⟩ := serEntry_head prev e
+    have := ih (serEntry prev e).length
+    simp only [serEntries, List.length_append, List.length_cons, hbt] at this ⊢
+    omega
+
+/-- the counting loop behind the 65535 marker walks exactly the entries of the ziplist -/
+theorem zlCount_ser (es : List ZlEntry) (h : ∀ e ∈ es, e.WF) (prev acc fuel : Nat) (hf : es.length < fuel) :
+    zlCount fuel (serEntries prev es ++ [0xFF]) acc = .ok (acc + es.length) := by
+  induction es generalizing prev acc fuel with
+  | nil =>
+    obtain ⟨f, rfl⟩ : ∃ f, fuel = f + 1 := ⟨fuel - 1, by simp at hf; omega⟩
+    have : (0xFF : UInt8).toNat = 255 := by decide
+    simp [zlCount, serEntries, this]
+  | cons e es ih =>
+    obtain ⟨f, rfl⟩ : ∃ f, fuel = f + 1 := ⟨fuel - 1, by simp at hf; omega⟩
+    obtain ⟨b, t, hbt, hb⟩ := serEntry_head prev e
+    have hser := zlEntry_ser prev e (h e (by simp)) (serEntries (serEntry prev e).length es ++ [0xFF])
+    simp only [serEntries, List.append_assoc]
+    rw [hbt] at hser ⊢
+    simp only [List.cons_append] at hser ⊢
+    simp only [zlCount, hb, if_false, hser]
+    rw [ih (fun x hx => h x (by simp [hx])) _ _ f (by simp at hf; omega)]
+    simp only [List.length_cons]
+    congr 1; omega
+
+theorem zlLength_ser (es : List ZlEntry) (h : ∀ e ∈ es, e.WF) :
     zlLength (serZiplist es) = .ok (es.length, serEntries 0 es ++ [0xFF]) := by
   unfold serZiplist zlLength
   simp only [List.append_assoc]
@@ -562,10 +602,15 @@ theorem zlLength_ser (es : List ZlEntry) (hl : es.length < 65536) :
   rw [← List.append_assoc (leBytes 4 _) (leBytes 4 _), drop_append_len _ _ 8 h8,
     bSlice_append _ _ 2 (leBytes_length 2 _)]
   simp only [leNat_leBytes]
-  have : es.length % 256 ^ 2 = es.length := by
-    have : (256 : Nat) ^ 2 = 65536 := by decide
-    rw [this]; omega
-  rw [this]
+  have h256 : (256 : Nat) ^ 2 = 65536 := by decide
+  rw [h256]
+  by_cases hl : es.length < 65535
+  · have e1 : min es.length 65535 % 65536 = es.length := by omega
+    simp only [e1, hl, if_true]
+  · have e1 : min es.length 65535 % 65536 = 65535 := by omega
+    simp only [e1, Nat.lt_irrefl, if_false]
+    rw [zlCount_ser es h 0 0 _ (by have := serEntries_length_ge es 0; simp; omega)]
+    simp
 
 theorem signed_twos_width (w : Nat) (hw : w = 2 ∨ w = 4 ∨ w = 8) (v : Int) (h : widthFits w v) :
     signed (8 * w) (twos (8 * w) v % 256 ^ w) = v := by
@@ -746,9 +791,9 @@ theorem qlNode_ser (n : QNode) (hz : zlWF n.es) (hw : strOkC n.w) (hl : Spec.Rdb
   unfold qlNode
   rw [cReadString_ser n.w hw rest, hl]
   simp only []
-  rw [zlLength_ser n.es (by have := hz.2; omega)]
+  rw [zlLength_ser n.es hz]
   simp only []
-  rw [zlEntries_entries n.es hz.1 0 [0xFF]]
+  rw [zlEntries_entries n.es hz 0 [0xFF]]
 
 theorem qlNodes_ser (ns : List QNode)
     (h : ∀ n ∈ ns, zlWF n.es ∧ strOkC n.w ∧ Spec.Rdb.logical n.w = serZiplist n.es) (rest : Bytes) :
@@ -834,7 +879,7 @@ theorem compact_value (fixed : Bool) (pf : Bytes → Option UInt64) (c : Compact
     have t : (10 : UInt8).toNat = 10 := by decide
     simp only [decodeValueG, readObject, Compact.type, t]
     simp only [hrs, done, serCompact,
-      zlLength_ser es (by have := hc.2; omega), manyB_entries es hc.1 0 [0xFF], adapt_list]
+      zlLength_ser es hc, manyB_entries es hc 0 [0xFF], adapt_list]
   | intset wd xs =>
     simp only [logicalOf, Option.some.injEq] at hv
     subst hv
@@ -856,7 +901,7 @@ theorem compact_value (fixed : Bool) (pf : Bytes → Option UInt64) (c : Compact
       have t : (12 : UInt8).toNat = 12 := by decide
       simp only [decodeValueG, readObject, Compact.type, t]
       simp only [hrs, done, serCompact,
-        zlLength_ser (flattenPairs ps) (by have := hc.2; omega), hdiv, manyB_zset pf ps hc.1 r hr 0 [0xFF], adapt_zset']
+        zlLength_ser (flattenPairs ps) hc, hdiv, manyB_zset pf ps hc r hr 0 [0xFF], adapt_zset']
   | hashZl ps =>
     simp only [logicalOf, Option.some.injEq] at hv
     subst hv
@@ -866,7 +911,7 @@ theorem compact_value (fixed : Bool) (pf : Bytes → Option UInt64) (c : Compact
     have t : (13 : UInt8).toNat = 13 := by decide
     simp only [decodeValueG, readObject, Compact.type, t]
     simp only [hrs, done, serCompact,
-      zlLength_ser (flattenPairs ps) (by have := hc.2; omega), hdiv, manyB_pairs ps hc.1 0 [0xFF]]
+      zlLength_ser (flattenPairs ps) hc, hdiv, manyB_pairs ps hc 0 [0xFF]]
     exact adapt_hash' _
 
 /-- compact types read ONE string object and never look at what follows it -/
